@@ -10,6 +10,7 @@ import (
 	"go/types"
 	"math/big"
 	"math/bits"
+	"os"
 	"strings"
 
 	"golang.org/x/tools/go/ssa"
@@ -115,8 +116,8 @@ func (e *Engine) ufApp(name string, ret Sort, args []*Term) *Term {
 		// look the application up in the replayed model
 		var as []string
 		for _, a := range args {
-			if !a.IsConst() {
-				panic(engineError{"symbolic UF argument during concrete replay"})
+			if !a.IsConst() && a.op != OFpConst {
+				panic(engineError{fmt.Sprintf("symbolic UF argument during concrete replay (op %d)", a.op)})
 			}
 			as = append(as, "0x"+a.c.Text(16))
 		}
@@ -124,12 +125,17 @@ func (e *Engine) ufApp(name string, ret Sort, args []*Term) *Term {
 		v, ok := e.ModelIn[k]
 		if !ok {
 			v = big.NewInt(0)
+			if e.Verbose {
+				fmt.Fprintf(os.Stderr, "[%s] replay: no model value for %s (0 used)\n", e.Harness, k)
+			}
 		}
 		switch ret.K {
 		case SBool:
 			return e.tt.Bool(v.Sign() != 0)
 		case SInt:
 			return e.tt.Int(v)
+		case SFP:
+			return e.tt.FPConst(v.Uint64())
 		default:
 			return e.tt.BV(ret.W, v)
 		}
